@@ -660,9 +660,8 @@ func (t *RDPToken) FromBytes(src []byte) error {
 	if err := binary.Read(buf, RDPTokenBytesOrder, &t.ClassOptions); err != nil {
 		return err
 	}
-	if buf.Len() > 0 {
-		t.Optional = append(t.Optional, buf.Bytes()...)
-	}
+	// what t held before is replaced, not added to
+	t.Optional = append([]byte(nil), buf.Bytes()...)
 	return nil
 }
 
